@@ -584,6 +584,40 @@ def check_program(prog):
                 msg = check_removal(prog, sl, list(res), k, S, finals)
                 if msg:
                     fail("remove_symbol_definitions", f"S={list(S)} k={k}: {msg}")
+
+    # ---- depends_on (the dependency query behind has_covariate_effect / has_random_effect): sound for the statements
+    #      in front of the ODE system - every leaf whose change moves the final value of a symbol must be reported
+    import types
+
+    from pharmpy.modeling.expressions import depends_on
+
+    pre = prog[: next((i for i, st in enumerate(prog) if st[0] == "ode"), len(prog))]
+    if pre:
+        shell = types.SimpleNamespace(statements=stats)
+        leaves = sorted({nm for st in pre for nm in rhs_names(st[1])} - {st[0] for st in pre} | {l for l in LEAVES})
+        for sname in sorted({st[0] for st in pre}):
+            for leaf in leaves:
+                moved = False
+                for env in ENVS:
+                    try:
+                        a = ref_run(pre, env)[0].get(sname)
+                        e2 = dict(env)
+                        e2[leaf] = env.get(leaf, 0.0) + 0.37
+                        b = ref_run(pre, e2)[0].get(sname)
+                    except Undefined:
+                        continue
+                    if a is not None and b is not None and not close(a, b):
+                        moved = True
+                        break
+                if not moved:
+                    continue
+                try:
+                    got = depends_on(shell, sname, leaf)
+                except Exception as e:
+                    fail("depends_on", f"depends_on({sname}, {leaf}): {type(e).__name__}: {e}")
+                    continue
+                if not got:
+                    fail("depends_on", f"depends_on({sname}, {leaf}) is False although the final value of {sname} changes with {leaf}")
     return fails
 
 
